@@ -149,9 +149,11 @@ Qed.
 Lemma chunks_cover {A} (l : list A) k :
   1 <= k -> concat (map (chunk l k) (seq 0 k)) = l.
 Proof.
-  intro Hk. unfold chunk.
-  rewrite <- (array_split_length l k Hk) at 2.
-  rewrite map_nth_seq. now apply array_split_concat.
+  intro Hk.
+  assert (E : map (chunk l k) (seq 0 k) = array_split l k).
+  { pose proof (map_nth_seq (array_split l k) []) as H.
+    rewrite array_split_length in H by exact Hk. exact H. }
+  rewrite E. now apply array_split_concat.
 Qed.
 
 (* ------------------------------------------------------------------------- *)
